@@ -58,6 +58,14 @@ Function-level scoping of python locals (added for units.py `convert_expression_
  * a tuple assignment whose targets mix new names, mutable names, `_` and the variable of the enclosing `for` goes
    through fresh temporaries: `let (t0__, t1__) := rhs; a := t0__; let b := t1__` (a `for` variable is shadowed by a
    `let`, which is only accepted directly in the loop body).
+
+Additions for the Units group (additive; output of the other groups unchanged):
+ * spec key `mutable_params`: parameters re-declared `let mut p := p` at the top (python mutates the object `self`).
+ * `if c: T = X else: T = Y` whose X or Y contains a monadic leaf `(← …)` becomes
+   `let T ← (if c then (do pure X) else (do pure Y))`, so that the leaf runs only in its own branch.
+ * a statement-pattern template that is empty drops the statement (constructor lines with no counterpart in the view).
+ * `if c: x.f = X else: x.f = Y` (attribute targets) is NOT merged into one `let`: the two assignments are translated
+   by their statement patterns inside an ordinary if / else.
 """
 import ast
 import copy
@@ -481,7 +489,11 @@ class Fn:
                     xa, ya = [z[1:].strip() if z.startswith('←') else 'pure ' + z for z in (xa, ya)]
                     self.assign(ind, t, '← (if %s then (%s) else (%s))' % (self.cond(s.test), xa, ya))
                     return
-                self.assign(ind, t, '(if %s then %s else %s)' % (self.cond(s.test), self.expr(x), self.expr(y)))
+                if '(←' in xa or '(←' in ya:
+                    # a monadic leaf nested inside a branch expression
+                    self.assign(ind, t, '← (if %s then (do pure %s) else (do pure %s))' % (self.cond(s.test), xa, ya))
+                    return
+                self.assign(ind, t, '(if %s then %s else %s)' % (self.cond(s.test), xa, ya))
                 return
             self.emit(ind, 'if %s then' % self.cond(s.test))
             saved = set(self.declared)
